@@ -632,5 +632,20 @@ func Fixed() []Gen {
 		out[i].Depth = 1
 	}
 	out = append(out, Gen{Name: "error", T: reflect.TypeOf((*error)(nil)).Elem(), Vals: []Val{val(errors.New("boom"), "errors.New")}, Leaf: "error", Depth: 0})
+	// interface{} positions holding what the decoder's default settings give back for the tag: a pointer to a
+	// registered struct, []interface{}, map[interface{}]interface{}, int, float64 - at the top, in a list, in
+	// a map, in a field
+	ifaceT := reflect.TypeOf((*interface{})(nil)).Elem()
+	iv := func(x interface{}, class string) Val {
+		v := reflect.New(ifaceT).Elem()
+		v.Set(reflect.ValueOf(x))
+		return Val{v, class}
+	}
+	tg := &Tagged{Name: "n", Age: 3, Ptr: &one}
+	zoo := []interface{}{tg, []interface{}{1, 2.5, "s"}, map[interface{}]interface{}{"k": 1, 2: "v"}, 7, 1.5, &OneMap{map[string]int{"k": 1}}}
+	out = append(out, Gen{Name: "ifacezoo", T: ifaceT, Leaf: "iface", Depth: 2, Vals: []Val{
+		iv(tg, "ptr-to-registered"), iv([]interface{}{1, "a"}, "list"), iv(map[interface{}]interface{}{"k": 1}, "iimap"),
+		iv(zoo, "list-of-all"), iv(map[interface{}]interface{}{"all": zoo, "one": tg}, "map-of-all"),
+		iv(&OneIface{zoo}, "field-of-all")}})
 	return out
 }
